@@ -43,7 +43,9 @@ def mkcase(rng, tree, depth, nc, fmts=("C", "U", "")):
         qs.append({"q": "subtree", "pt": absent})
     return {"tree": tree, "depth": depth, "shapes": [nc + 2] * depth, "spec": spec, "rootspec": rootspec, "queries": qs,
             "with_root": rng.choice([0, 1]), "keep_empty_rank": rng.choice([0, 1]),
-            "tfmts": [rng.choice(["C", "U"]) for _ in range(depth)] if rng.random() < 0.3 else []}
+            "tfmts": [rng.choice(["C", "U"]) for _ in range(depth)] if rng.random() < 0.3 else [],
+            "grow": [rng.randint(0, nc + 1) for _ in range(depth)] if rng.random() < 0.4 else [],
+            "ownshape": 1 if rng.random() < 0.3 else 0}
 
 
 def run(ctx):
